@@ -103,7 +103,9 @@ static void run(Src &s) {
     if (!(n < 60 && s.chance(96))) break;
     n++;
     const SecArg &sa = SEC_ARGS[s.below(N_SEC_ARGS)];
-    const std::string &key = hist_keys()[s.below((uint32_t)hist_keys().size())];
+    // (a key name may end in a blank: for the API it is a name like any other)
+    static const std::string blank_tail_key = "name ";
+    const std::string &key = s.chance(6) ? blank_tail_key : hist_keys()[s.below((uint32_t)hist_keys().size())];
     std::string sec = sa.norm;
     const char *sarg = sa.arg;
     bool bracketed = sarg && sarg[0] == '[';
